@@ -11,6 +11,13 @@ inside the region of an open finding the code must still behave like the as-is m
 Oracle: written from the property statement — the concatenation of the delivered chunks and `completion`
 both equal `expected(text)` = drop the prefix, cut at the first stop sequence, drop the suffix — for every
 chunking (hence identical across chunkings).
+
+Phase 2/4 case kinds: `usage` (harness/impl/c18_usage.py: two real handlers driven exactly like
+generate_intent_steps_message + generate_bot_message, every chunking x every schedule; also the value
+wait_top_k_nonempty_lines returns), `topk` (one buffer through the real `_process` buffering branch and
+`wait_top_k_nonempty_lines` against the line-by-line Lean model AND the character scans), plain cases with
+`pipe_cfg` (two-stage pipe: the piped handler has its own patterns; its queue, completion and finished flag are
+compared with `pipeTargetCfg`), plain cases with an empty first token through on_llm_new_token.
 """
 import asyncio
 import uuid
@@ -400,11 +407,28 @@ async def _one(case, chunks):
     return [items, h.completion, h.streaming_finished_event.is_set()]
 
 
+async def _guarded(make, hangs):
+    """one handler run under a watchdog.  A TimeoutError can be spurious (the machine / VM stalled while the timer ran —
+    observed under load: 1 of 13 056 runs); a real hang of the code under test is deterministic, so the run is repeated
+    once with a longer limit before the timeout is recorded as an observation (at most twice per case, then no more retries)."""
+    try:
+        return await asyncio.wait_for(make(), 20)
+    except asyncio.TimeoutError:
+        if hangs[0] >= 2:
+            raise
+    try:
+        return await asyncio.wait_for(make(), 60)
+    except asyncio.TimeoutError:
+        hangs[0] += 1
+        raise
+
+
 async def _all(case):
     runs = []
+    hangs = [0]
     for chunks in chunkings_of(case):
         try:
-            runs.append(await asyncio.wait_for(_one(case, chunks), 20))
+            runs.append(await _guarded(lambda: _one(case, chunks), hangs))
         except Exception as e:  # noqa -- an exception out of the handler is an observation
             runs.append([["<exc>"], "<exc:" + type(e).__name__ + ">", False])
     return runs
@@ -412,12 +436,13 @@ async def _all(case):
 
 async def _all_usage(case):
     runs = []
+    hangs = [0]
     for unit in us.units(case):
         try:
             if case.get("direct"):
-                runs.append(await asyncio.wait_for(us.run_direct(_H[0], case, unit), 20))
+                runs.append(await _guarded(lambda: us.run_direct(_H[0], case, unit), hangs))
             else:
-                runs.append(await asyncio.wait_for(us.run_single_call(_H[0], case, unit, _H[2]), 20))
+                runs.append(await _guarded(lambda: us.run_single_call(_H[0], case, unit, _H[2]), hangs))
         except Exception as e:  # noqa
             runs.append({"event": True, "items": ["<exc>"], "completion": "<exc:" + type(e).__name__ + ">", "finished": False})
     return runs
